@@ -109,10 +109,10 @@ func (a *Actor) Next() *Call {
 	if a.FirstPoll == 0 {
 		a.FirstPoll = a.w.r.Step + 1
 	}
-	c := a.start("rt-next", "GET", rtBase+"/invocation/next", map[string]string{"User-Agent": "sim-runtime/1.0"}, nil)
 	if a.st != "working" {
 		a.st = "polling"
 	}
+	c := a.start("rt-next", "GET", rtBase+"/invocation/next", map[string]string{"User-Agent": "sim-runtime/1.0"}, nil)
 	a.w.absorb()
 	return c
 }
@@ -243,6 +243,10 @@ func (w *World) absorb() {
 		}
 		switch c.Tag {
 		case "rt-next":
+			if c.Status >= 400 {
+				a.Refused++
+				a.st = "refused" // a runtime whose poll is refused gives up
+			}
 			if c.Status == 200 {
 				id := c.Hdr.Get("Lambda-Runtime-Aws-Request-Id")
 				d := Delivery{Step: c.EndStep, At: c.EndAt, ReqID: id, Type: "invoke", Body: c.Body, Hdr: flat(c.Hdr), CallSeq: c.Seq}
@@ -293,6 +297,10 @@ func (w *World) absorb() {
 				a.RegResp = m
 			}
 		case "ext-next":
+			if c.Status >= 400 {
+				a.Refused++
+				a.st = "refused"
+			}
 			if c.Status == 200 {
 				var ev ExtEvent
 				json.Unmarshal(c.Body, &ev)
